@@ -78,3 +78,30 @@ def result_stores(ck, facts, R):
                          "field `%s: %s` keeps solver results inside the solver across queries, but no rule says who may write it or that an "
                          "interrupted / earlier solve cannot leave a partial value in it" % (fld, ty[:120]))
     ck.floor(R, "result-holding-fields", n, 19)
+
+
+def any_future_answer(ck, facts, R):
+    """Forest::any_future_answer is what lets make_solution stop pulling answers and report definite guidance; it must look at *every*
+    answer already tabled from the cursor on (an earlier query may have enumerated the table completely) and at every pending strand."""
+    from kit import need_body, has_call
+    ck.rule(R, "K3: Forest::any_future_answer walks the cached answers in a loop - Table::answer(answer_index) is evaluated again after "
+               "answer_index.increment() until it returns None - applying `test` to each, and then applies `test` to every pending strand "
+               "(strands().any(..)); stopping after the first cached answer is only right on a table nobody enumerated before")
+    b = need_body(ck, facts, R, "chalk_engine::forest::Forest::any_future_answer")
+    if b is None:
+        return
+    cfg = b.cfg
+    ans = cfg.call_blocks("Table::answer")
+    inc = cfg.call_blocks("AnswerIndex::increment")
+    ck.floor(R, "any_future_answer.Table::answer", len(ans), 1)
+    if ans:
+        if inc and all(any(a in cfg.reachable(cfg.blocks[i]["t"].get("t"), (), False) for a in ans) for i in inc):
+            ck.ok(R, "any_future_answer:all-cached-answers", "answer(idx) re-evaluated after idx.increment()")
+        else:
+            ck.violation(R, "any_future_answer:all-cached-answers", b.where(),
+                         "only the cached answer at the cursor is examined: answers tabled beyond it (by an earlier query on the same forest) "
+                         "are ignored, so the guidance may be declared final although a cached answer invalidates it")
+    if has_call(b.thir, "strands") and (has_call(b.thir, "Iterator::any") or has_call(b.thir, "any")):
+        ck.ok(R, "any_future_answer:all-pending-strands")
+    else:
+        ck.violation(R, "any_future_answer:all-pending-strands", b.where(), "every pending strand may still produce an answer and must be tested")
